@@ -3,6 +3,7 @@ CONSTANTS
   CT = FALSE
   TwoKeys = TRUE
   Wl2 = TRUE
+  SameCls = TRUE
   MaxInit = 2
   EarlyForget = FALSE
   SwallowList = FALSE
